@@ -36,6 +36,7 @@ func init() {
 		Explain: "Decides that snapshot I/O failures cannot crash the node or stop recording, structurally: the Snapshotter's file/writer handles are never left nil by any function (a nil store must be overwritten before every return), so no later use dereferences a nil writer; every error of a write/flush on the append path reaches the append wrapper's recovery branch, which (behind the retry interval only) re-runs compaction from in-memory state; errors of open/sync/rename are branched on and never flow into a panic; the tee goroutine that delivers events shares no handle state with the writer goroutine. Which faults an OS can produce and the 30 s timing are not covered.",
 		Run:     runC12,
 		Mutants: []Mutant{
+			{Name: "append-before-state-on-departure", File: "serf/snapshot.go", Func: "func (s *Snapshotter) processMemberEvent(", Old: "\t\t\tdelete(s.aliveNodes, mem.Name)\n\t\t\ts.tryAppend(fmt.Sprintf(\"not-alive: %s\\n\", mem.Name))\n", New: "\t\t\ts.tryAppend(fmt.Sprintf(\"not-alive: %s\\n\", mem.Name))\n\t\t\tdelete(s.aliveNodes, mem.Name)\n", Expect: "R7"},
 			{Name: "compact-temp-not-truncated", File: "serf/snapshot.go", Func: "func (s *Snapshotter) compact(", Old: "os.O_RDWR|os.O_TRUNC|os.O_CREATE", New: "os.O_RDWR|os.O_CREATE", Expect: "R6"},
 			{Name: "compact-before-buffering", File: "serf/snapshot.go", Func: "func (s *Snapshotter) appendLine(", Old: "\tn, err := s.buffered.WriteString(l)\n", New: "\tif s.offset+int64(len(l)) > s.snapshotMaxSize() {\n\t\tif err := s.compact(); err != nil {\n\t\t\treturn err\n\t\t}\n\t}\n\tn, err := s.buffered.WriteString(l)\n", Expect: "R3|appendLine"},
 			{Name: "throttle-armed-by-routine-compaction", File: "serf/snapshot.go", Func: "func (s *Snapshotter) compact(", Old: "\tnewPath := s.path + tmpExt\n", New: "\ts.lastAttemptedCompaction = time.Now()\n\tnewPath := s.path + tmpExt\n", Expect: "R4|throttle-writer"},
@@ -275,6 +276,21 @@ func runC12(c *an.Ctx) {
 	c.Rule("R4 recovery: on an append error compact() is reached behind the retry-interval test only, and compact rewrites from in-memory state")
 	c.Rule("R5 the tee goroutine touches no file/handle/alive-set state")
 	fns := snapFuncs(c)
+	c.Rule("R7 (shared with C10) recovery rewrites the file from the in-memory state, so each recorder updates that state before it appends its line (a recovery triggered by that very append must already contain the change)")
+	{
+		sub10 := an.NewCtx(c.P, "C10", c.Tier)
+		runC10(sub10)
+		n7 := 0
+		for _, o := range sub10.Obs {
+			if o.Rule == "R3" {
+				o.Key = "R7|C10:" + o.Key
+				o.Rule = "R7"
+				c.Obs = append(c.Obs, o)
+				n7++
+			}
+		}
+		c.Floor("R7", "state-before-append obligations", n7, 4)
+	}
 	c.Rule("R6 (shared with C11) the compaction's temporary file is opened truncated and the live file append-only: what a failed compaction left behind does not leak into the file the next compaction installs")
 	nO := 0
 	for _, fn := range fns {
